@@ -190,6 +190,8 @@ Disconnect(p) ==
 -----------------------------------------------------------------------------
 (* remote peers: what a peer of a given policy may send                    *)
 
+\* (the end-to-end scenarios of MC_Metadata_gen use further scripted variants of "any": total, capmax, junk, proto, nometa,
+\*  forge, huge, neg - see harness/c13/e2e.go; the trace specification only distinguishes "honest" from the rest)
 Policies == {"honest", "any", "sizeplus", "sizeminus", "badlen", "dup", "unreq", "garbage", "reject", "stall", "over", "drop"}
 
 PolAdv(pol) ==
